@@ -223,7 +223,11 @@ func served(resp hdrResp, err error) bool {
 }
 
 func (w *world) foreignID(kind int, rng *rand.Rand) uint64 {
-	switch kind % 5 {
+	switch kind % 7 {
+	case 5:
+		return w.id &^ 0xffffffff // high bits only
+	case 6:
+		return w.id & 0xffffffff // low bits only
 	case 0:
 		return 0
 	case 1:
@@ -285,7 +289,7 @@ func (w *world) foreignSweep(l, kind int, rng *rand.Rand) {
 			}
 		}
 		r.Eval(1) // one RPC kind exercised with a foreign cluster id (direct and through gRPC)
-		r.Distinct("foreign|" + k.name + "|" + fmt.Sprint(kind%5))
+		r.Distinct("foreign|" + k.name + "|" + fmt.Sprint(kind%7))
 	}
 	// streaming kinds, through gRPC only
 	pd := w.pd(l, 1)
